@@ -46,6 +46,7 @@ fn main() {
         "C13" => verif_harness::props::c13::run(&cfg),
         "C09" => verif_harness::props::c09::run(&cfg),
         "C08" => verif_harness::props::c08::run(&cfg),
+        "C01" => verif_harness::props::c01::run(&cfg),
         "STRUCT" => verif_harness::props::structs::run_model(&cfg),
         _ => {
             eprintln!("unknown property {prop}");
